@@ -63,6 +63,16 @@ def cases(tier):
                     for t_set in ([], [two_alpha(n, n)[0] + [2.0]], [two_alpha(n, n)[1] + [1.0], two_alpha(n, n)[4] + [3.0]]):
                         for thr in (0, 1e-12):
                             yield {'k': 'hom', 'ss': [n] * d, 'cyclic': cyclic, 's': s_set, 't': t_set, 'thr': thr}
+    # homogeneous wrapper (one reaction set for every cell / bond) on longer chains whose cells have different sizes
+    for ss in ([2, 2, 3, 2], [2, 3, 2, 3, 2], [3, 2, 2, 2], [2, 2, 2, 2]):
+        for cyclic in (False, True):
+            for s_set in ([[0, 1, 1.0]], [[0, 1, 1.0], [1, 0, 0.5]]):
+                for t_set in ([two_alpha(2, 2)[0] + [2.0]], [two_alpha(2, 2)[1] + [1.0], two_alpha(2, 2)[2] + [3.0]]):
+                    yield {'k': 'hom', 'ss': ss, 'cyclic': cyclic, 's': s_set, 't': t_set, 'thr': 0}
+    # one transition recorded far more often than `simulations` (merged runs): entries are plain quotients
+    for reps_, sim in ((300, 100), (70000, 1000), (260, 255)):
+        yield {'k': 'ulam3', 'grid': [2, 1, 2], 'tab': [[1, 1, 1, 2, 1, 2]], 'sim': sim, 'repeat': reps_}
+        yield {'k': 'ulam2', 'grid': [2, 2], 'tab': [[1, 1, 2, 2]], 'sim': sim, 'repeat': reps_}
     # Ulam
     for grid, maxlen in (([1, 2], 3), ([2, 2], 3), ([2, 3], 2), ([3, 2], 2)):
         boxes = list(itertools.product(*[range(1, g + 1) for g in grid]))
@@ -187,12 +197,15 @@ def run_case(case, seed):
             check_generator(r, key, op, G, ss)
     else:
         grid = case['grid']; nd = len(grid)
+        if case.get('repeat'):
+            case = dict(case, tab=case['tab'] * case['repeat'])
         tab = np.array(case['tab'], dtype=case.get('dt', 'int64')).T        # shape (2*nd, K): columns are transitions
         N = int(np.prod(grid))
         P = np.zeros((N, N))
         for t in case['tab']:
             src = np.ravel_multi_index([a - 1 for a in t[:nd]], grid); tgt = np.ravel_multi_index([a - 1 for a in t[nd:]], grid)
-            P[tgt, src] += 1.0 / case['sim']
+            P[tgt, src] += 1.0
+        P = P / case['sim']
         r.nontrivial = True
         key = 'ulam_%dd' % nd
         t0 = tab.copy()
